@@ -188,7 +188,7 @@ def build_diff_records(quick: bool, seed: int) -> list[dict[str, Any]]:
     rnd = random.Random(seed)
     docs = docs_small()
     pairs = list(itertools.product(docs, docs))
-    pairs = rnd.sample(pairs, 2500 if quick else 20000)
+    pairs = rnd.sample(pairs, min(len(pairs), 2500 if quick else 20000))
     # hypothesis: larger documents (nesting, unicode keys, nulls)
     from hypothesis import HealthCheck, given, settings, strategies as st
     leaf = st.one_of(st.none(), st.booleans(), st.integers(-5, 5), st.text(max_size=3))
